@@ -41,8 +41,12 @@ ENV.update({"CARGO_NET_OFFLINE": "true", "CARGO_TERM_COLOR": "never"})
 ENV.pop("RUSTUP_TOOLCHAIN", None)
 ENV.pop("RUSTFLAGS", None)
 
-MEM_LIMIT_KB = int(os.environ.get("CV_MEM_KB", 14_000_000))
-JOBS = int(os.environ.get("CV_JOBS", 10))
+# memory: every CBMC process gets RLIMIT_AS = MEM_LIMIT_KB; JOBS * MEM_LIMIT_KB stays below the 62 GB of this
+# machine (no swap: an over-commit gets the Kani driver killed and loses the whole run)
+MEM_LIMIT_KB = int(os.environ.get("CV_MEM_KB", 7_000_000))
+JOBS = int(os.environ.get("CV_JOBS", 8))
+THOROUGH_MEM_KB = int(os.environ.get("CV_THOROUGH_MEM_KB", 14_000_000))
+THOROUGH_JOBS = int(os.environ.get("CV_THOROUGH_JOBS", 4))
 
 
 def log(*a):
@@ -87,8 +91,11 @@ def select(reg, prop, tier, seed):
 
 # ----------------------------------------------------------------------------------------------------
 # running kani
+_MEM = {"kb": MEM_LIMIT_KB}
+
+
 def limit_mem():
-    resource.setrlimit(resource.RLIMIT_AS, (MEM_LIMIT_KB * 1024, MEM_LIMIT_KB * 1024))
+    resource.setrlimit(resource.RLIMIT_AS, (_MEM["kb"] * 1024, _MEM["kb"] * 1024))
 
 
 class Lock:
@@ -174,6 +181,19 @@ def parse_results(harnesses, out_json, raw):
                                         "location": "%s:%s" % (c.get("location", {}).get("file"), c.get("location", {}).get("line"))})
             e["functions"] = sorted(funcs)
             e["status"] = "SUCCESS" if r.get("status") == "Success" else "FAILURE"
+    # if the driver died before writing the JSON export, recover the per-harness verdicts from its terse log
+    # (enough to classify HOLDS / failed; the check names are not available then => a failure is inconclusive)
+    if not data:
+        for h, b in parse_terse_log(raw).items():
+            if h in res and "v" in b:
+                e = res[h]
+                e["duration_s"] = b.get("t")
+                if b["v"] == "SUCCESSFUL":
+                    e["status"] = "SUCCESS"
+                    e["covers"] = {"(from terse log)": "Satisfied"} if b.get("covers_ok", True) else {"(from terse log)": "Unsatisfiable"}
+                    e["n_checks"] = b.get("n", 0)
+                else:
+                    e["note"] = "failed / out of memory (driver log only)" if not b.get("oom") else "cbmc out of memory"
     # stdout fallback / cross-check (timeouts, crashes, OOM are only visible there)
     for h in harnesses:
         e = res[h]
@@ -186,6 +206,38 @@ def parse_results(harnesses, out_json, raw):
             if not m:
                 e["note"] = (e.get("note", "") + " harness never started (build failure?)").strip()
     return res
+
+
+def parse_terse_log(raw):
+    cur, out, blk = {}, {}, None
+    for ln in raw.splitlines():
+        m = re.match(r"(?:Thread (\d+): )?Checking harness (\S+)\.\.\.", ln)
+        if m:
+            cur[m.group(1) or "0"] = m.group(2)
+            if m.group(1) is None:
+                blk = out.setdefault(m.group(2), {})
+            continue
+        m = re.match(r"Thread (\d+): ?$", ln)
+        if m:
+            h = cur.get(m.group(1))
+            blk = out.setdefault(h, {}) if h else None
+            continue
+        if blk is None:
+            continue
+        if ln.startswith("VERIFICATION:-"):
+            blk["v"] = ln.split("- ")[1].strip()
+        m = re.match(r"Verification Time: ([\d.]+)s", ln)
+        if m:
+            blk["t"] = float(m.group(1))
+        if "out of memory" in ln or "CBMC failed" in ln:
+            blk["oom"] = True
+        m = re.match(r" \*\* (\d+) of (\d+) failed", ln)
+        if m:
+            blk["n"] = int(m.group(2))
+        m = re.match(r" \*\* (\d+) of (\d+) cover properties satisfied", ln)
+        if m:
+            blk["covers_ok"] = m.group(1) == m.group(2)
+    return out
 
 
 _FN_RE = re.compile(r"^<&?(?:mut )?(chumsky::[A-Za-z_:]+)(?:<.*>)? as (chumsky::[A-Za-z_:]+)(?:<.*>)?>::([a-z_0-9]+)(?:::<(.*)>)?$")
@@ -364,10 +416,15 @@ def do_check(prop, tier, seed, only=None, write_evidence=True):
         names = [r["harness"] for r in sel]
         byname = {r["harness"]: r for r in sel}
         tmax = max(r["timeout_s"] for r in sel)
+        jobs = JOBS
         if tier == "quick":
-            tmax = min(tmax, int(os.environ.get("CV_QUICK_TIMEOUT", 900)))
-        log(f"{prop} {tier}: {len(names)} harnesses, -j {min(JOBS, len(names))}, per-harness timeout {tmax}s")
-        results, raw, wall = run_kani(names, tmax, f"{prop}-{tier}")
+            tmax = min(tmax, int(os.environ.get("CV_QUICK_TIMEOUT", 600)))
+        else:
+            _MEM["kb"] = THOROUGH_MEM_KB
+            jobs = THOROUGH_JOBS
+        log(f"{prop} {tier}: {len(names)} harnesses, -j {min(jobs, len(names))}, per-harness timeout {tmax}s, "
+            f"{_MEM['kb'] // 1000} MB per solver process")
+        results, raw, wall = run_kani(names, tmax, f"{prop}-{tier}", jobs=jobs)
         known = load_known()
         bins = None
         violations, known_hits, inconclusive, holds = [], [], [], []
